@@ -408,7 +408,8 @@ func (a *Agent) dryRun() error {
 // if processes do not terminate after MaxCleanUp time, it sends KILL signal.
 func (a *Agent) signal(sig os.Signal, allowOverride bool) {
 	a.logger.Info("Sending signal to running child processes", "signal", sig)
-	done := make(chan bool)
+	// buffered: after the clean-up time this function stops listening
+	done := make(chan bool, 1)
 	go func() {
 		a.scheduler.Signal(a.graph, sig, done, allowOverride)
 	}()
